@@ -56,6 +56,9 @@ def gen(rng, n_ops):
             ops.append("wait")
         elif a == "restart" and not held:
             ops += ["wait", "close", "reopen"]
+        if not held and rng.random() < 0.08:
+            # the process dies at this quiescent point: what would a reopen of the device as it is now serve?
+            ops += ["wait", "crashprobe cut=100000000"]
     if held:
         ops += ["unhold"]
     ops += ["wait"] + [f"get k={k}" for k in range(4)] + ["wait", "close", "reopen"] + [f"get k={k}" for k in range(4)]
@@ -124,6 +127,14 @@ def translate(cfgl, lines):
                 out.append(f"{k} subs"); expect.append((n, k, "subs", len(written[k])))
         elif name == "reopen":
             out.append("* restart")
+        elif name == "crashprobe":
+            body = r.split(" post=")[0].split(" ", 1)[1] if " " in r else ""
+            for item in body.split(","):
+                if "=" not in item:
+                    continue
+                k, v = item.split("=", 1)
+                got = None if v == "-" else int(v[1:].split(":")[1])
+                out.append(f"{int(k)} crash"); expect.append((n, int(k), "crash", got))
     return "\n".join(out) + "\n", expect, vers
 
 
